@@ -206,8 +206,9 @@ def s_requires_inline_call(ctx):
 
     def reg(v):
         raise AssertionError
-    I.models[reg] = lambda interp, v: registered.append(v)
-    newgraph.fields.update(inputs=ni, register_initializer=reg)
+    new_inits = {}   # the stripped initializers come back as graph inputs only: the converted graph has no initializer of its own
+    I.models[reg] = lambda interp, v: (registered.append(v), new_inits.__setitem__(v.fields["name"], v))[0]
+    newgraph.fields.update(inputs=ni, register_initializer=reg, initializers=new_inits)
     cm = SObj(ir.Model, "converted_model")
     cm.fields.update(graph=newgraph)
     I.models[ir.from_proto] = lambda interp, p: cm
